@@ -57,6 +57,8 @@ class Sight:
 
         self.focal_plane = focal_plane
         self.scale_factor = PreferredUnits.distance(scale_factor if scale_factor is not None else 1)
+        if focal_plane == 'SFP' and self.scale_factor.raw_value <= 0:
+            raise ValueError('Scale_factor required for SFP sights')
         self.h_click_size = PreferredUnits.adjustment(h_click_size)
         self.v_click_size = PreferredUnits.adjustment(v_click_size)
 
